@@ -15,6 +15,7 @@ import asyncio
 
 from simkit import seams
 from simkit.runner import Run, PlanError, canon, gen_knobs
+from simkit.storage import SimStorage
 from models.fsm_model import FsmModel, ModelError, UNDEF
 from checks import fsmlib
 
@@ -77,7 +78,10 @@ def gen(rng, tier, index=0):
         ops.append({'op': 'ev', 'ev': ev, 'data': data, 'via': rng.choice(['ext', 'ext', 'blk']),
                     'yield': rng.random() < 0.5})
     knobs = gen_knobs(rng, latency=False, cost=True, ties=False)
-    return {'knobs': knobs, 'spec': spec, 'inst': inst, 'ops': ops}
+    # a quarter of the machines are persistent blocks of a circuit with storage (the state is
+    # saved after every event): table, actions, results and event data must not change
+    persist = rng.choice([None, None, None, None, None, 'sync', 'sync', 'nosync'])
+    return {'knobs': knobs, 'spec': spec, 'inst': inst, 'ops': ops, 'persist': persist}
 
 
 class Sender(edzed.SBlock):
@@ -110,6 +114,14 @@ def execute(plan, trace=False):
         for s in model.states:
             kw[f"on_enter_{s}"] = edzed.Event(recorder, 'enter')
             kw[f"on_exit_{s}"] = edzed.Event(recorder, 'exit')
+        persist = plan.get('persist')
+        if persist is not None:
+            if persist not in ('sync', 'nosync'):
+                raise PlanError('bad persist')
+            edzed.get_circuit().set_persistent_data(SimStorage())
+            kw['persistent'] = True
+            kw['sync_state'] = persist == 'sync'
+            run.fired('reach:persistent_fsm')
         blk = fsmlib.build_instance(cls, spec, inst, sink, on_notrans=edzed.Event(recorder, 'nt'),
                                     on_output=edzed.Event(recorder, 'out'), **kw)
         sender = Sender('sender', x_dest=blk)
